@@ -1,7 +1,8 @@
 import AsyncsshModel.Base.Hex
 /-
   One endpoint of an SSH channel: the send half and the receive half of `class SSHChannel`
-  (/repo/asyncssh/channel.py), transcribed between awaits as total functions.
+  (/repo/asyncssh/channel.py, tree with the fixes de5c08f, 53cd2ff, 024eb80), transcribed between awaits as total
+  functions.
 
   send half    : `write` (896-950), `_flush_send_buf` (305-335), `write_eof` (981-997), `close` (768-786),
                  `_close_send` (250-260), `send_packet` (718-727: silently drops when `_send_chan is None`),
@@ -15,10 +16,15 @@ import AsyncsshModel.Base.Hex
   `pause_writing`/`resume_writing` high/low-water callbacks to the session (`_pause_resume_writing`, no influence on
   what is sent), channel requests, `abort()`.
 
-  The only loop that may fail to terminate, `while self._send_buf and self._send_window` in `_flush_send_buf`, is
-  modelled with fuel (`flushData`): `none` means the fuel ran out.  `Lemmas/Channel.lean` proves that the fuel
-  used by `flushSend` always suffices when `0 < sendPktsize`, and that for `sendPktsize = 0` *no* amount of
-  fuel suffices (the loop spins: candidate defect F2).
+  The only loop whose termination is not structural, `while self._send_buf and self._send_window` in
+  `_flush_send_buf`, is modelled with fuel (`flushData`): `none` means the fuel ran out.  `Lemmas/Channel.lean`
+  proves that the fuel used by `flushSend` ALWAYS suffices (since fix de5c08f the loop breaks when the packet size
+  is `<= 0`).  The loop as it was before that fix is kept as `flushDataOld`: for `sendPktsize = 0` no amount of
+  fuel suffices (defect F2).  Likewise `recvDataOld` is the receive-side window check before fix 53cd2ff (F3) and
+  `closeStepOld` / `recvCloseOld` the CLOSE handling before fix 024eb80 (F13).
+
+  `_recv_buf_len` (53cd2ff) is not a field: it is incremented when data is buffered, decremented when it is popped
+  and reset when the buffer is discarded, i.e. it always equals `bufBytes recvBuf`, which the model uses.
 
   Mathlib-free.
 -/
@@ -90,6 +96,8 @@ structure Chan where
   recvWindow : Int
   recvPaused : Paused
   recvBuf : Buf
+  /-- `_recv_eof_pending`: the peer's EOF was still pending when its CLOSE arrived -/
+  recvEofPending : Bool := false
   /-- application behaviour: `some k` = the session will call `pause_reading()` from inside its `(k+1)`-th next
       `data_received` callback (what `SSHStreamSession.data_received` does when its buffer is full) -/
   pauseAfter : Option Nat
@@ -127,6 +135,7 @@ def flushData : Nat → Chan → Option (Chan × List Msg)
     | [] => some (c, [])
     | (buf, dt) :: rest =>
       if c.sendWindow = 0 then some (c, [])
+      else if pktSize c.sendWindow c.sendPktsize = 0 then some (c, [])     -- `if pktsize <= 0: break`
       else
         let r := splitHead (pktSize c.sendWindow c.sendPktsize) buf dt rest
         let c' := { c with sendBuf := r.2, sendWindow := c.sendWindow - r.1.length }
@@ -134,7 +143,22 @@ def flushData : Nat → Chan → Option (Chan × List Msg)
         | none => none
         | some (c'', ms) => some (c'', sendPkt c (.data dt r.1) ++ ms)
 
-/-- fuel that suffices whenever `0 < sendPktsize` (`Lemmas/Channel.lean: flushData_terminates`) -/
+/-- the loop as it was before fix de5c08f (no `if pktsize <= 0: break`); kept for the witness theorem of F2 -/
+def flushDataOld : Nat → Chan → Option (Chan × List Msg)
+  | 0, _ => none
+  | fuel + 1, c =>
+    match c.sendBuf with
+    | [] => some (c, [])
+    | (buf, dt) :: rest =>
+      if c.sendWindow = 0 then some (c, [])
+      else
+        let r := splitHead (pktSize c.sendWindow c.sendPktsize) buf dt rest
+        let c' := { c with sendBuf := r.2, sendWindow := c.sendWindow - r.1.length }
+        match flushDataOld fuel c' with
+        | none => none
+        | some (c'', ms) => some (c'', sendPkt c (.data dt r.1) ++ ms)
+
+/-- fuel that always suffices (`Lemmas/Channel.lean: flushData_terminates`) -/
 def flushFuel (c : Chan) : Nat := bufBytes c.sendBuf + c.sendBuf.length + 1
 
 /-- the tail of `_flush_send_buf`: EOF / CLOSE deferred until the buffer has drained -/
@@ -202,6 +226,13 @@ def eofStep (c : Chan) : Option (Chan × List Msg × List Out) :=
 
 /-- `_flush_recv_buf`, third part: `if not self._recv_buf and self._recv_state == 'close_pending'` -/
 def closeStep (c : Chan) : Chan × List Out :=
+  if c.recvBuf.isEmpty ∧ c.recvState = .closePending then
+    -- `if self._recv_eof_pending:` … `self._session.eof_received()` (fix 024eb80), then cleanup
+    ({ c with recvState := .closed, recvEofPending := false }, if c.recvEofPending then [.eof, .lost] else [.lost])
+  else (c, [])
+
+/-- the same before fix 024eb80: a pending EOF is forgotten (F13) -/
+def closeStepOld (c : Chan) : Chan × List Out :=
   if c.recvBuf.isEmpty ∧ c.recvState = .closePending then ({ c with recvState := .closed }, [.lost]) else (c, [])
 
 /-- `_flush_recv_buf` (no `exc`) -/
@@ -263,7 +294,7 @@ def recvMsg (c : Chan) : Msg → StepRes
   | .data dt bs =>
     if c.recvState ≠ .opn then .error .notOpen
     else if ¬ typeOk c.readTypes dt then .error .badExtType
-    else if (bs.length : Int) > c.recvWindow then .error .windowExceeded
+    else if (bs.length : Int) > c.recvWindow - bufBytes c.recvBuf then .error .windowExceeded
     else .ok (acceptData c bs dt)
   | .adjust n =>
     if ¬ recvOpenish c.recvState then .error .notOpen
@@ -275,7 +306,7 @@ def recvMsg (c : Chan) : Msg → StepRes
     if ¬ recvOpenish c.recvState then .error .notOpen
     else
       let r := closeSend c
-      match flushRecv { r.1 with recvState := .closePending } with
+      match flushRecv { r.1 with recvEofPending := decide (c.recvState = .eofPending), recvState := .closePending } with
       | none => .error .spin
       | some (c2, ms, os) => .ok (c2, r.2 ++ ms, os)
 
@@ -306,6 +337,59 @@ def step (c : Chan) : Ev → StepRes
     if c.recvPaused = .starting then liftRecv (flushRecv { c with recvPaused := .no }) else .ok (c, [], [])
   | .recv m => recvMsg c m
 
+/-! ### the code before the fixes de5c08f / 53cd2ff / 024eb80 (witness theorems only) -/
+
+/-- `_process_data` / `_process_extended_data` before fix 53cd2ff: buffered bytes are not counted (F3) -/
+def recvDataOld (c : Chan) (dt : DType) (bs : Bytes) : StepRes :=
+  if c.recvState ≠ .opn then .error .notOpen
+  else if ¬ typeOk c.readTypes dt then .error .badExtType
+  else if (bs.length : Int) > c.recvWindow then .error .windowExceeded
+  else .ok (acceptData c bs dt)
+
+/-- `_flush_recv_buf` before fix 024eb80 -/
+def flushRecvOld (c : Chan) : Option (Chan × List Msg × List Out) :=
+  let r := drainRecv c c.recvBuf
+  match eofStep { r.1 with recvBuf := r.2.1 } with
+  | none => none
+  | some (c2, ms2, os2) =>
+    let r3 := closeStepOld c2
+    some (r3.1, r.2.2.1 ++ ms2, r.2.2.2 ++ os2 ++ r3.2)
+
+/-- `_process_close` before fix 024eb80: `'eof_pending'` is overwritten by `'close_pending'` (F13) -/
+def recvCloseOld (c : Chan) : StepRes :=
+  if ¬ recvOpenish c.recvState then .error .notOpen
+  else
+    let r := closeSend c
+    match flushRecvOld { r.1 with recvState := .closePending } with
+    | none => .error .spin
+    | some (c2, ms, os) => .ok (c2, r.2 ++ ms, os)
+
+/-- `_flush_send_buf` before fix de5c08f -/
+def flushSendOld (c : Chan) : Option (Chan × List Msg) :=
+  match flushDataOld (flushFuel c) c with
+  | none => none
+  | some (c1, ms) =>
+    let r := flushTail c1
+    some (r.1, ms ++ r.2)
+
+/-- the endpoint as it was before the three fixes, for the events the fixes touch -/
+def stepOld (c : Chan) : Ev → StepRes
+  | .write dt bs =>
+    if c.sendState ≠ .opn then .error .brokenPipe
+    else if ¬ typeOk c.writeTypes dt then .error .badDatatype
+    else if bs.isEmpty then .ok (c, [], [])
+    else liftSend (flushSendOld { c with sendBuf := c.sendBuf ++ [(bs, dt)] })
+  | .resume =>
+    if c.recvPaused ≠ .no then liftRecv (flushRecvOld { c with recvPaused := .no }) else .ok (c, [], [])
+  | .startReading =>
+    if c.recvPaused = .starting then liftRecv (flushRecvOld { c with recvPaused := .no }) else .ok (c, [], [])
+  | .recv (.data dt bs) => recvDataOld c dt bs
+  | .recv .eof =>
+    if c.recvState ≠ .opn then .error .notOpen
+    else liftRecv (flushRecvOld { c with recvState := .eofPending })
+  | .recv .close => recvCloseOld c
+  | ev => step c ev
+
 /-- a freshly opened channel endpoint: `window`/`max_pktsize` are what the *peer* advertised in
     CHANNEL_OPEN / OPEN_CONFIRMATION (`process_open`, `process_open_confirmation`: taken as is — the zero
     packet size check in connection.py is commented out), `initWindow` what this side advertised -/
@@ -313,6 +397,7 @@ def Chan.opened (initWindow : Nat) (readTypes writeTypes : List Nat) (eofKeep : 
     (peerWindow peerPktsize : Nat) (paused : Paused) : Chan :=
   { initWindow, readTypes, writeTypes, eofKeep,
     sendState := .opn, sendChanOpen := true, sendWindow := peerWindow, sendPktsize := peerPktsize, sendBuf := [],
-    recvState := .opn, recvWindow := initWindow, recvPaused := paused, recvBuf := [], pauseAfter := none }
+    recvState := .opn, recvWindow := initWindow, recvPaused := paused, recvBuf := [], recvEofPending := false,
+    pauseAfter := none }
 
 end AsyncsshModel.Channel
